@@ -240,6 +240,28 @@ def compressed_limit_stims(seed, tier):
     return out
 
 
+def long_stream_stims(seed, tier):
+    """Scale: streams of 120 messages in each streaming direction (whatever is counted, buffered or reused per message)."""
+    rnd = random.Random(seed + 120)
+    out = []
+    for shape in ('cstream', 'sstream', 'bidi'):
+        for enc in ('', 'gzip'):
+            for h2 in (False, True):
+                big_req = shape in ('cstream', 'bidi')
+                big_resp = shape in ('sstream', 'bidi')
+                def msgs(n):
+                    return [[rnd.randrange(256)] * rnd.choice([0, 1, 3, 20, 7]) for _ in range(n)]
+                st = {'mode': 'client', 'class': 'long_stream', 'transport': 'h2' if h2 else 'inproc',
+                      'shim': {'cap': 65536, 'rq': rnd.choice([64, 65536]), 'wq': rnd.choice([100, 65536]), 'pend': 0}, 'shape': shape,
+                      'server': {'send': [enc] if enc else [], 'accept': [enc] if enc else [], 'max_dec': -1, 'max_enc': -1},
+                      'client': {'send': enc, 'accept': [enc] if enc else [], 'max_dec': -1, 'max_enc': -1},
+                      'req': {'meta': [], 'msgs': msgs(120 if big_req else 1)},
+                      'script': {'init_meta': [], 'msgs': msgs(120 if big_resp else 1), 'end': {'ok': True} if rnd.random() < 0.7 else {'ok': False, 'code': 9, 'msg': list(b'late'), 'details': [], 'meta': []},
+                                 'fail_before': False, 'no_compress': False}}
+                out.append(st)
+    return out
+
+
 def check(prop, tier, seed):
     t0 = time.time()
     core.build_harness()
@@ -255,6 +277,7 @@ def check(prop, tier, seed):
     if prop == 'C02':
         fams.append(('response_table', mock_table_stims(seed, tier, mc)))
         fams.append(('compressed_limits', compressed_limit_stims(seed, tier)))
+        fams.append(('long_streams', long_stream_stims(seed, tier)))
     if prop == 'C08':
         fams.append(('calls2', simple.gen('call', seed + 77, tier, tag)))
     if prop == 'C06':
